@@ -217,6 +217,12 @@ func c10CtorSub() *engine.Sub {
 			for _, b := range wellFormed(tok, false) {
 				ctx.Failf(cs, "constructor-returns-malformed/"+b, "constructor returned a token with %s (%+v)", b, cs)
 			}
+			if d, ok := tok.(*delegation.Token); ok && cs.Spec.Opts["sub"] == "root" {
+				// a root delegation is one issued by its own subject
+				if d.Subject() != d.Issuer() || !d.Subject().Defined() {
+					ctx.Failf(cs, "constructor-returns-malformed/root-subject", "delegation.Root returned a token whose subject %v is not its issuer %v", d.Subject(), d.Issuer())
+				}
+			}
 		},
 	}
 }
@@ -857,6 +863,47 @@ func c10GoValues() []goValue {
 		goValue{"struct", "struct{}", struct{ A int }{1}, nil}, goValue{"chan", "chan", make(chan int), nil}, goValue{"func", "func", func() {}, nil},
 		goValue{"map[int]int", "{1:1}", map[int]int{1: 1}, nil}, goValue{"nil", "nil", nil, nil}, goValue{"[]any", "[nil]", []any{nil}, nil},
 	)
+	// content other than numbers: strings, bytes, bools, nesting, order, emptiness, aliasing-prone kinds
+	type myBytes []byte
+	type myBool bool
+	type mySlice []string
+	type myMap map[string]int
+	var nilPtr *int
+	var nilMap map[string]int
+	var nilSlice []int
+	long := strings.Repeat("é0", 300)
+	r = append(r,
+		goValue{"string", "empty", "", nil}, goValue{"string", "multibyte", "héllo wörld \u2603", nil}, goValue{"string", "600 bytes", long, nil},
+		goValue{"string", "NUL inside", "a\x00b", nil}, goValue{"string", "padded", " a b\t\n", nil}, goValue{"[]string", "[600 bytes, padded]", []string{long, " x "}, nil},
+		goValue{"named-string", "600 bytes", myStr(long), nil}, goValue{"map[string]string", "{600-byte key: v}", map[string]string{long: "v", " k ": "w"}, nil}, goValue{"string", "looks like a number", "12", nil},
+		goValue{"[]byte", "empty", []byte{}, nil}, goValue{"[]byte", "00 ff 80", []byte{0, 0xff, 0x80}, nil}, goValue{"[]byte", "300 bytes", bytes.Repeat([]byte{1, 2, 3}, 100), nil},
+		goValue{"named-[]byte", "ab", myBytes("ab"), nil},
+		goValue{"bool", "false", false, nil}, goValue{"named-bool", "true", myBool(true), nil},
+		goValue{"[]string", "[b,a,c]", []string{"b", "a", "c"}, nil}, goValue{"named-[]string", "[x,y]", mySlice{"x", "y"}, nil},
+		goValue{"[]any", "mixed", []any{1, "a", true, 1.5, []byte("z"), []any{int8(-3)}, map[string]any{"q": uint16(9)}}, nil},
+		goValue{"[]any", "empty", []any{}, nil}, goValue{"[][]int", "[[1,2],[],[3]]", [][]int{{1, 2}, {}, {3}}, nil},
+		goValue{"[3]string", "[c,b,a]", [3]string{"c", "b", "a"}, nil}, goValue{"[0]int", "[]", [0]int{}, nil},
+		goValue{"[3]byte", "byte array", [3]byte{1, 2, 3}, nil},
+		goValue{"map[string]any", "nested", map[string]any{"z": 1, "a": map[string]any{"y": []string{"p"}, "b": false}, "": "empty key"}, nil},
+		goValue{"map[string]string", "{b:1,a:2}", map[string]string{"b": "1", "a": "2"}, nil}, goValue{"named-map", "{k:1}", myMap{"k": 1}, nil},
+		goValue{"map[string]any", "empty", map[string]any{}, nil}, goValue{"map[string][]byte", "{k:ff}", map[string][]byte{"k": {0xff}}, nil},
+		goValue{"*string", "ptr(s)", func() *string { x := "s"; return &x }(), nil}, goValue{"**int", "ptr(ptr(4))", func() **int { x := 4; y := &x; return &y }(), nil},
+		goValue{"*[]int", "ptr([1,2])", &[]int{1, 2}, nil}, goValue{"*map", "ptr({a:1})", &map[string]int{"a": 1}, nil},
+		goValue{"*int", "nil pointer", nilPtr, nil}, goValue{"map", "nil map", nilMap, nil}, goValue{"[]int", "nil slice", nilSlice, nil},
+		goValue{"[]*int", "[nil pointer]", []*int{nil}, nil}, goValue{"map[string]any", "{k:nil}", map[string]any{"k": nil}, nil},
+		goValue{"[]cid", "[cid,cid]", []cid.Cid{cidPool[1], cidPool[2]}, nil}, goValue{"map[string]cid", "{k:cid}", map[string]cid.Cid{"k": cidPool[4]}, nil},
+		goValue{"cid", "undefined cid", cid.Undef, nil},
+		goValue{"[]node", "[int 5, str]", []datamodel.Node{nInt(5), nStr("s")}, nil}, goValue{"node", "map node", nMap(kv{"k", nList(nInt(1), nStr("x"))}), nil},
+		goValue{"node", "float 1.0", nFloat(1.0), nil}, goValue{"node", "null", nNull(), nil}, goValue{"node", "int -(2^53-1)", nInt(-(1<<53 - 1)), nil},
+		goValue{"struct", "struct with slice", struct{ L []int }{[]int{1}}, nil}, goValue{"[]struct", "[struct]", []struct{ A int }{{1}}, nil},
+		goValue{"complex128", "1+2i", complex(1, 2), nil}, goValue{"uintptr", "7", uintptr(7), nil},
+		goValue{"error", "error value", fmt.Errorf("x"), nil},
+		goValue{"float64", "NaN", math.NaN(), nil}, goValue{"float64", "+Inf", math.Inf(1), nil}, goValue{"float64", "-0", math.Copysign(0, -1), nil},
+		goValue{"[]float32", "[0.1,16777217]", []float32{0.1, 16777217}, nil}, goValue{"map[string]float64", "{k:1e-320}", map[string]float64{"k": 1e-320}, nil},
+		goValue{"[]int8", "[-128,127]", []int8{-128, 127}, nil}, goValue{"[]uint16", "[0,65535]", []uint16{0, 65535}, nil},
+		goValue{"[]int64", "[min]", []int64{math.MinInt64}, nil}, goValue{"[]int64", "[-(2^53-1),2^53-1]", []int64{-(1<<53 - 1), 1<<53 - 1}, nil},
+		goValue{"[]int64", "[-2^53]", []int64{-(1 << 53)}, nil}, goValue{"map[string]int64", "{a:1,b:2^53}", map[string]int64{"a": 1, "b": 1 << 53}, nil},
+	)
 	return r
 }
 
@@ -876,7 +923,7 @@ func nodeMath(n datamodel.Node) (*big.Float, bool) {
 		return bf(v), true
 	case datamodel.Kind_Float:
 		v, err := n.AsFloat()
-		if err != nil {
+		if err != nil || math.IsNaN(v) {
 			return nil, false
 		}
 		return bf(v), true
@@ -892,6 +939,9 @@ func goNumbers(v reflect.Value, out *[]*big.Float) {
 	case reflect.Uint, reflect.Uint8, reflect.Uint16, reflect.Uint32, reflect.Uint64:
 		*out = append(*out, bf(v.Uint()))
 	case reflect.Float32, reflect.Float64:
+		if math.IsNaN(v.Float()) {
+			return // no mathematical value; the content comparison covers it
+		}
 		*out = append(*out, bf(v.Float()))
 	case reflect.Slice, reflect.Array:
 		if v.Type().Elem().Kind() == reflect.Uint8 {
@@ -951,13 +1001,131 @@ outer:
 	return true
 }
 
+// goShape renders the exact content of a supported Go value (reference for "stored exactly"):
+// ok=false means the value holds something the reference does not define (nil, struct, chan,
+// func, non-string map keys, byte arrays): then only the numbers are compared.
+func goShape(v reflect.Value) (string, bool) {
+	if !v.IsValid() {
+		return "", false
+	}
+	if v.CanInterface() {
+		switch x := v.Interface().(type) {
+		case cid.Cid:
+			return "l:" + x.String(), true
+		case datamodel.Node:
+			return nodeShape(x), true
+		}
+	}
+	switch v.Kind() {
+	case reflect.Bool:
+		return fmt.Sprintf("b:%v", v.Bool()), true
+	case reflect.Int, reflect.Int8, reflect.Int16, reflect.Int32, reflect.Int64:
+		return fmt.Sprintf("i:%d", v.Int()), true
+	case reflect.Uint, reflect.Uint8, reflect.Uint16, reflect.Uint32, reflect.Uint64:
+		return fmt.Sprintf("i:%d", v.Uint()), true
+	case reflect.Float32, reflect.Float64:
+		return fmt.Sprintf("f:%x", v.Float()), true
+	case reflect.String:
+		return fmt.Sprintf("s:%q", v.String()), true
+	case reflect.Slice, reflect.Array:
+		if v.Type().Elem().Kind() == reflect.Uint8 {
+			if v.Kind() == reflect.Array {
+				return "", false
+			}
+			return fmt.Sprintf("x:%x", v.Bytes()), true
+		}
+		if v.Kind() == reflect.Slice && v.IsNil() {
+			return "", false
+		}
+		parts := make([]string, v.Len())
+		for i := range parts {
+			e, ok := goShape(v.Index(i))
+			if !ok {
+				return "", false
+			}
+			parts[i] = e
+		}
+		return "[" + strings.Join(parts, ",") + "]", true
+	case reflect.Map:
+		if v.Type().Key().Kind() != reflect.String || v.IsNil() {
+			return "", false
+		}
+		var parts []string
+		for _, k := range v.MapKeys() {
+			e, ok := goShape(v.MapIndex(k))
+			if !ok {
+				return "", false
+			}
+			parts = append(parts, fmt.Sprintf("%q=%s", k.String(), e))
+		}
+		sortStrings(parts)
+		return "{" + strings.Join(parts, ",") + "}", true
+	case reflect.Ptr, reflect.Interface:
+		if v.IsNil() {
+			return "", false
+		}
+		return goShape(v.Elem())
+	}
+	return "", false
+}
+
+// nodeShape renders an IPLD node in the same notation.
+func nodeShape(n datamodel.Node) string {
+	switch n.Kind() {
+	case datamodel.Kind_Null:
+		return "null"
+	case datamodel.Kind_Bool:
+		b, _ := n.AsBool()
+		return fmt.Sprintf("b:%v", b)
+	case datamodel.Kind_Int:
+		if u, ok := n.(datamodel.UintNode); ok {
+			if v, err := u.AsUint(); err == nil {
+				return fmt.Sprintf("i:%d", v)
+			}
+		}
+		v, _ := n.AsInt()
+		return fmt.Sprintf("i:%d", v)
+	case datamodel.Kind_Float:
+		f, _ := n.AsFloat()
+		return fmt.Sprintf("f:%x", f)
+	case datamodel.Kind_String:
+		x, _ := n.AsString()
+		return fmt.Sprintf("s:%q", x)
+	case datamodel.Kind_Bytes:
+		x, _ := n.AsBytes()
+		return fmt.Sprintf("x:%x", x)
+	case datamodel.Kind_Link:
+		l, _ := n.AsLink()
+		return "l:" + l.String()
+	case datamodel.Kind_List:
+		var parts []string
+		it := n.ListIterator()
+		for !it.Done() {
+			_, v, _ := it.Next()
+			parts = append(parts, nodeShape(v))
+		}
+		return "[" + strings.Join(parts, ",") + "]"
+	case datamodel.Kind_Map:
+		var parts []string
+		it := n.MapIterator()
+		for !it.Done() {
+			k, v, _ := it.Next()
+			ks, _ := k.AsString()
+			parts = append(parts, fmt.Sprintf("%q=%s", ks, nodeShape(v)))
+		}
+		sortStrings(parts)
+		return "{" + strings.Join(parts, ",") + "}"
+	}
+	return "?"
+}
+
 func c10ValueSub() *engine.Sub {
 	vals := c10GoValues()
 	return &engine.Sub{
 		Name: "go-values-stored-exactly",
 		Repeat: true,
-		Rule: "every Go numeric type x {0, +/-1, +/-(2^53-1), +/-2^53, type min, type max}, float specials, named types, containers and pointers carrying boundary numbers, strings, bytes, CIDs, IPLD nodes and unsupported types, handed to literal.Any, args.Add, invocation.WithArgument and meta.Add: the call returns an error (never panics) or stores a node whose numbers are mathematically equal to the supplied ones; arguments additionally never hold an integer beyond +/-(2^53-1); non-trivial = numeric values",
-		Bound: func(string) string { return fmt.Sprintf("%d Go values x 4 entry points", len(vals)) },
+		Rule: "every Go numeric type x {0, +/-1, +/-(2^53-1), +/-2^53, type min, type max}, float specials, named types, containers and pointers carrying boundary numbers, strings, bytes, CIDs, IPLD nodes and unsupported types, handed to literal.Any, args.Add, args.Builder (Build / BuildIPLD), args.ToIPLD, args.Include + Clone, invocation.WithArgument / WithArguments and meta.Add: the call returns an error (never panics) or stores a node whose numbers are mathematically equal to the supplied ones and whose whole content (kinds, strings, bytes, booleans, links, list order and length, map keys) equals the reference rendering of the Go value; a second Add of a key is rejected and leaves the first value in place; arguments additionally never hold an integer beyond +/-(2^53-1); non-trivial = numeric values",
+		Bound: func(string) string { return fmt.Sprintf("%d Go values x 10 entry points", len(vals)) },
 		Gen: func(tier string, emit func(any) bool) {
 			for _, v := range vals {
 				if !emit(&c10ValCase{Type: v.Type, Val: v.Val}) {
@@ -1016,6 +1184,84 @@ func c10ValueSub() *engine.Sub {
 					}
 					return m.GetNode("k")
 				}},
+				{"args.Builder", true, func() (datamodel.Node, error) {
+					a, err := args.NewBuilder().Add("j", "first").Add("k", gv.V).Add("l", 3).Build()
+					if err != nil {
+						return nil, err
+					}
+					return a.GetNode("k")
+				}},
+				{"args.Builder.BuildIPLD", true, func() (datamodel.Node, error) {
+					n, err := args.NewBuilder().Add("k", gv.V).Add("a", "other").BuildIPLD()
+					if err != nil {
+						return nil, err
+					}
+					return n.LookupByString("k")
+				}},
+				{"args.Add+ToIPLD", true, func() (datamodel.Node, error) {
+					a := args.New()
+					if err := a.Add("z", true); err != nil {
+						return nil, err
+					}
+					if err := a.Add("k", gv.V); err != nil {
+						return nil, err
+					}
+					n, err := a.ToIPLD()
+					if err != nil {
+						return nil, err
+					}
+					return n.LookupByString("k")
+				}},
+				{"args.Include+Clone", true, func() (datamodel.Node, error) {
+					a := args.New()
+					if err := a.Add("k", gv.V); err != nil {
+						return nil, err
+					}
+					b := args.New()
+					if err := b.Add("x", "kept"); err != nil {
+						return nil, err
+					}
+					b.Include(a)
+					return b.Clone().GetNode("k")
+				}},
+				{"invocation.WithArguments", true, func() (datamodel.Node, error) {
+					a := args.New()
+					if err := a.Add("k", gv.V); err != nil {
+						return nil, err
+					}
+					k := fixtures.Get("ed25519", 0)
+					t, err := invocation.New(k.DID, otherPrincipal(k, 1), "/a", []cid.Cid{cidPool[0]}, invocation.WithArgument("first", 1), invocation.WithArguments(a))
+					if err != nil {
+						return nil, err
+					}
+					return t.Arguments().GetNode("k")
+				}},
+				{"duplicate-key", true, func() (datamodel.Node, error) {
+					// the first value of a key is the stored one; a second Add of the same key is rejected and changes nothing
+					a := args.New()
+					if err := a.Add("k", gv.V); err != nil {
+						return nil, err
+					}
+					if err := a.Add("k", "other"); err == nil {
+						return nil, fmt.Errorf("harness-signal: duplicate key accepted")
+					}
+					n, err := a.GetNode("k")
+					if err != nil {
+						return nil, fmt.Errorf("harness-signal: value lost after rejected duplicate: %v", err)
+					}
+					cnt := 0
+					for range a.Iter() {
+						cnt++
+					}
+					if cnt != 1 {
+						return nil, fmt.Errorf("harness-signal: %d entries after a rejected duplicate", cnt)
+					}
+					return n, nil
+				}},
+			}
+			wantShape, haveShape := "", false
+			if gv.V != nil {
+				wantShape, haveShape = goShape(reflect.ValueOf(gv.V))
 			}
 			for _, e := range entry {
 				ctx.Eval(1)
@@ -1032,10 +1278,18 @@ func c10ValueSub() *engine.Sub {
 				case pan != nil:
 					ctx.Outcome("panic")
 					ctx.Failf(cs, "value-entry-panics/"+cs.Type, "%s(%s %s) panics: %v", e.name, cs.Type, cs.Val, pan)
+				case err != nil && strings.HasPrefix(err.Error(), "harness-signal: "):
+					ctx.Outcome("duplicate-mishandled")
+					ctx.Failf(cs, "duplicate-key-mishandled", "%s(%s %s): %v", e.name, cs.Type, cs.Val, err)
 				case err != nil:
 					ctx.Outcome("rejected")
 				default:
 					ctx.Outcome("stored")
+					if haveShape {
+						if gs := nodeShape(n); gs != wantShape {
+							ctx.Failf(cs, "value-silently-altered/content/"+cs.Type, "%s(%s %s) stored %.200s instead of %.200s", e.name, cs.Type, cs.Val, gs, wantShape)
+						}
+					}
 					var got []*big.Float
 					nodeNumbers(n, &got)
 					if !sameNumbers(want, got) {
